@@ -109,3 +109,29 @@ Proof.
   assert (E : step_cp false s o = step s o) by (destruct o; simpl; try reflexivity; rewrite deliver_tx_cp_unrestricted; reflexivity).
   rewrite E. destruct (step s o); [apply IH|reflexivity].
 Qed.
+
+(* the same lift for invariants that need something of every operation of the history (e.g. "no transaction is signed by the
+   pool's own address") *)
+Section LiftP.
+  Variable I : state -> Prop.
+  Variable P : op -> Prop.
+  Hypothesis I_step : forall s o s', I s -> P o -> step s o = Some s' -> I s'.
+  Hypothesis I_ante : forall s t s', I s -> P (OTx t) -> ante s t = Some s' -> I s'.
+  Lemma step_cp_inv_P r s o s' : I s -> P o -> step_cp r s o = Some s' -> I s'.
+  Proof.
+    intros H K. destruct o as [h tm p vs es|t|a amt|a sev| |]; simpl.
+    - apply (I_step s (OBegin h tm p vs es)); assumption.
+    - intros [= <-]. destruct (deliver_tx_cp_cases r s t) as [E|E].
+      + rewrite E. apply (I_step s (OTx t)); [exact H|exact K|reflexivity].
+      + eapply I_ante; eauto.
+    - apply (I_step s (OAward a amt)); assumption.
+    - apply (I_step s (OBurn a sev)); assumption.
+    - apply (I_step s OEnd); assumption.
+    - apply (I_step s OCommit); assumption.
+  Qed.
+  Theorem run_cp_inv_P r ops : Forall P ops -> forall s s', I s -> run_cp r ops s = Some s' -> I s'.
+  Proof.
+    unfold run_cp. induction ops as [|o ops IH]; simpl; intros F s s' H; [intros [= <-]; exact H|].
+    inversion F as [|? ? Fo Fr]; subst. destruct (step_cp r s o) as [s1|] eqn:E; [|discriminate]. apply (IH Fr s1 s'). eapply step_cp_inv_P; eauto.
+  Qed.
+End LiftP.
